@@ -88,6 +88,15 @@ def tasks(tier, seed, selftest=False):
             S.append(dict(family="D3", skeleton=tuple(p) + (qy,), timebox=15 if q else 900, tag="fine", params={"fine": True}))
             # decision point: forward growth always declined by the size heuristic (the livelock's trigger), whatever the real sizes
             S.append(dict(family="D3", skeleton=tuple(p) + (qy,), timebox=12 if q else 600, tag="decline", params={"fine": True, "size_mode": "decline"}))
+    # four variables with the growth decision forced (decline): progress then rests on the loop's own bookkeeping alone
+    for fam in ("B22", "CH4", "R4"):
+        for p in ((), ("fullbfs",)):
+            S.append(dict(family=fam, skeleton=tuple(p) + ("seeds",), timebox=12 if q else 600, tag="decline", params={"fine": True, "size_mode": "decline"}))
+    # unrestricted 4-variable networks with the growth decision forced; several solver seeds (the shape that stalls a
+    # weakened progress rule is rare: about 1 class in 10 000)
+    for k in range(2 if q else 12):
+        for p in ((), ("fullbfs",)):
+            S.append(dict(family="U4", skeleton=tuple(p) + ("seeds",), timebox=10 if q else 600, tag=f"decline/s{k}", params={"fine": True, "size_mode": "decline", "solver_seed": k}))
     if not q:
         for qy in ("seeds", "sets"):
             S.append(dict(family="U3", skeleton=(qy,), timebox=600, cube_k=5, nbits=24))
